@@ -47,4 +47,6 @@ def run(env: Env) -> Outcome:
     out.count("live:multicollect_specs", len(multi))
     suite.live_runs(env, out, env.budget(400, 8000), [monitors.mon_c01],
                     extra_specs=[c for c in suite.load_corpus("C01")] + multi)
+    # fan-in: collecting steps with 1..3 workers, some of them with zero-delay retries that fail before / right after collecting
+    suite.live_runs(env, out, env.budget(250, 5000), [monitors.mon_c01], gen_kwargs={"family": "fanin", "raise_incomplete": True})
     return out
